@@ -26,14 +26,27 @@ MANIFEST = dict(
          'acknowledgements nobody is left in the wait window, and (trace form) an untimed waiter blocked while a notify_all body '
          'runs holds its token when that notify_all reaches its final lock release; notify hands out at most one token; a timed '
          'wait may give up at any step, then returns False and the invariant still holds; the abstract event flag changes only '
-         'at set/clear and is_set/Event.wait return exactly it. Correspondence: the real classes run over a fake _semlock under '
+         'at set/clear and is_set/Event.wait return exactly it. LIVENESS SIDE (no fairness assumption): a second invariant gives a LOWER '
+         'bound on the wake-up tokens (acknowledgements a notifier still waits for <= wait_semaphore + woken_count + waiters standing at '
+         'their acknowledgement); a variant M decreases with every step of every thread, so every schedule executes at most M steps; '
+         'progress: a notifier at its blocking _woken_count.acquire() always has an enabled thread next to it; a state without an enabled '
+         'thread has the lock free and consists of finished threads, untimed sleepers and threads blocked on user semaphores only; hence, '
+         'unconditionally, in every such state reached from a state where notify_all/Event.set was in progress with an untimed waiter '
+         'blocked, the notifier has returned None and the waiter has returned (True for Condition.wait), and a schedule reaching such a '
+         'state exists; same for notify when exactly one thread is in the wait window (trace form + unconditional form, with witness); '
+         'trace form of the wake-up theorem also for Event.set/Event.wait (flag = 1 at the end of set). Correspondence: the real classes run over a fake _semlock under '
          'explicit schedules and must produce the micro-trace, results and final values the Coq interpreter computes from the '
-         'same schedule; Gallina trace monitors classify differences.',
+         'same schedule; Gallina trace monitors classify differences. Real primitive: a scenario set runs the real classes over the real '
+         '_multiprocessing.SemLock across forked processes and threads (notify_all wakes all untimed waiters, timed-out wait returns False '
+         'and the counters reconcile, notify wakes exactly one, Event set/clear/wait, Semaphore(k) concurrency <= k, BoundedSemaphore '
+         'refuses over-release, RLock non-owner release), judged by outcome monitors only.',
     note='Trusted: Coq kernel; translate/kernels/semprog.py (Python-ast -> SemProg); the primitive semantics of '
          '_multiprocessing.SemLock as modelled in Model/SemProg.v (sem_acq/sem_rel; cross-checked sequentially against the real '
          'primitive on every run); harness/detsched.py. One logical thread = one process. Counters assumed below SEM_VALUE_MAX '
          '(hypothesis gen_run_small/small). Recursion depth of the condition lock > 1 (client c_wait2) is covered by the '
-         'correspondence only. Liveness/fairness of blocked acquires not modelled.',
+         'correspondence only. No fairness is assumed: termination of every schedule is proved (variant), under M g < 64*SEM_VALUE_MAX (the '
+         'system is not astronomically large). Real deadlines are over-approximated (a timed acquire may give up at any step). The '
+         'real-primitive scenarios sample real schedules (monitors only, no model).',
     technique='Coq proof over translator-regenerated semaphore programs (weight functions + case analysis on pc) + schedule-exact differential correspondence on the real classes',
     ref='5.17',
 )
